@@ -131,6 +131,8 @@ pub fn stress_menu_b() -> Vec<String> {
         "def X : Y { bits<4> b = 0; bit c = b{0-9223372036854775807, 0-9223372036854775807}; bits<2> d = b{9223372036854775807...0, 1}; int e = b{-9223372036854775808}; }",
         // widths and indices at the edge of the integer range, summed by a brace literal, used as list indices
         "def X : Y { bits<9223372036854775807> a; bits<8> b = { a, a, a }; bits<8> c = { a{0-9223372036854775807}, a{0-9223372036854775807} }; list<int> l = [1]; int m = l[9223372036854775807]; list<int> n = l[0...9223372036854775807]; }",
+        // accesses to a field that does not exist, with non-ASCII trivia between the dot and the name
+        "def X : Y;\ndefvar vX = [X./*é€😀*/n, X./*é€😀*/no, X./*é€😀*/nof, X./*é€😀*/nofi, X./*é€😀*/nofie, X./*é€😀*/nofiel, X./*é€😀*/nofield];\ndefvar wX = X. /*é*/ alsono /*€*/ . /*😀*/ deeper;",
         // one let over two defs whose classes each declare the field, with an untyped value and with some bits only
         "class P1 { bits<4> f = 0; } class P2 { bits<4> f = 0; } let f = !cond(true: 1) in { def X : P1; def Y : P2; } let f<0> = 1 in { def X1 : P2; def Y1 : P1; }",
     ];
